@@ -70,6 +70,7 @@ def register(R):
 
 def register_tls(R):
     R.ghost(TLSOUT="bytes", ssl_retry_calls="int")
+    R.external("contextlib.suppress", "stubs.async_backend.suppress")
     R.external("ssl.MemoryBIO", "stubs.async_backend.MemoryBIO")
     R.module(ST)
     R.shape("SSLObjectModel", cls="SSLObject", fields={})
@@ -96,6 +97,8 @@ def register_tls(R):
             ("closed-event-set-by-the-first-closer", "implies(not old(self.__closing), self.__closed.flag)", "C14"),
             ("in-standard-compatible-mode-the-first-closer-attempts-the-closing-handshake (unwrap: sends the close notification) unless the wrapped transport is found already closing",
              "implies(not old(self.__closing) and self._standard_compatible, ghost.ssl_retry_calls == old(ghost.ssl_retry_calls) + 1 or (bound('WASCLOSING') and WASCLOSING))", "C09 C14"),
+            ("whatever-the-closing-handshake-produced (the close notification) has been handed to the transport when a standard-compatible close completes - also when unwrap() failed after producing it (unread application data) - unless the shutdown timed out",
+             "implies(not old(self.__closing) and self._standard_compatible and bound('WASCLOSING') and not WASCLOSING and not (bound('shutdown_timeout_scope') and shutdown_timeout_scope.caught), self._write_bio.pending == 0)", "C09"),
             ("no-closing-handshake-when-not-standard-compatible-or-when-somebody-else-is-already-closing",
              "implies(not self._standard_compatible or old(self.__closing), ghost.ssl_retry_calls == old(ghost.ssl_retry_calls))", "C09 C14"),
         ],
